@@ -113,6 +113,16 @@ def run(ctx):
                     spec_fail.append((kind, "local energies are unchanged by an orthogonal orbital rotation", {"norb": norb, "nelec": ne, "before": str(e1), "after": str(e2)}))
                 if not all(wf.close(a, b, 1e-9, 1e-9) for a, b in zip(f1, f2)):
                     spec_fail.append((kind, "force biases are unchanged by an orthogonal orbital rotation", {"norb": norb, "nelec": ne}))
+                # the route a run takes: the dictionary already holds the intermediates of the unrotated problem when it is rotated
+                hm_p = hobj.rotate_orbs({k: (jnp.array(v) if hasattr(v, "shape") else v) for k, v in hm.items()}, jnp.array(U))
+                hm_p = hobj.build_measurement_intermediates(hm_p, trial, wd_r)
+                e3 = complex(trial._calc_energy(jnp.array(Wa_r), jnp.array(Wb_r), hm_p, wd_r))
+                f3 = np.array(trial._calc_force_bias(jnp.array(Wa_r), jnp.array(Wb_r), hm_p, wd_r))
+                evals += 1
+                if not wf.close(e1, e3, 1e-9, 1e-9) or not all(wf.close(a, b, 1e-9, 1e-9) for a, b in zip(f1, f3)):
+                    spec_fail.append((kind, "local energies and force biases are unchanged when an already prepared Hamiltonian dictionary is rotated and re-prepared",
+                                      {"norb": norb, "nelec": ne, "energy_before": str(e1), "energy_after": str(e3),
+                                       "max_force_bias_change": float(np.abs(f1 - f3).max())}))
                 if kind in ("rhf", "uhf"):
                     plain_r = {"h0": plain["h0"], "h1": np.array([U.T @ plain["h1"][0] @ U, U.T @ plain["h1"][1] @ U]),
                                "chol": np.einsum("qi,gij,jp->gqp", U.T, np.array(plain["chol"]).reshape(-1, norb, norb), U).reshape(-1, norb * norb)}
